@@ -214,7 +214,7 @@ def opts_c01(label):
 
 
 def history_property(prop, tier, seed, cases, opts_of, rule, on_result=snap_oracle, profiles=None,
-                     release_sample=7, extra=None, level="proof", trusted=None, build_kw=None):
+                     release_sample=7, extra=None, level="proof", trusted=None, build_kw=None, timeout=120):
     """generic check: proof gate + histories against the reference (+ extra oracles)"""
     rep = Report(prop, tier, seed, level)
     b = vlib.build(release=True, **(build_kw or {}))
@@ -227,7 +227,7 @@ def history_property(prop, tier, seed, cases, opts_of, rule, on_result=snap_orac
         if b.cargo_ok and b.extract_ok:
             corpus = corpus_cases(prop)
             failed += history_oracle(rep, corpus, lambda l: corpus_opts(l), rd, profiles=("debug", "release"), on_result=on_result)
-            failed += history_oracle(rep, cases, opts_of, rd, profiles=profiles, on_result=on_result)
+            failed += history_oracle(rep, cases, opts_of, rd, profiles=profiles, on_result=on_result, timeout=timeout)
             if tier == "quick" and release_sample and "release" not in profiles:
                 failed += history_oracle(rep, cases[::release_sample], opts_of, rd, profiles=("release",), on_result=on_result)
             if extra:
@@ -1262,7 +1262,7 @@ def check_c10(tier, seed):
         "while pinned (+ settling), none afterwards, up to 15% / 5% + 4 pages of fragmentation slack (fixed-size workloads); bounded and flat in the last third (variable-size); every commit's "
         "hook events replayed in the free-list model (allocate / free / release / publish exact) and accepted by the page-lifecycle machine; "
         "non-trivial = every run",
-        on_result=c10_oracle, release_sample=0, profiles=("release",))
+        on_result=c10_oracle, release_sample=0, profiles=("release",), timeout=120 if tier == "quick" else 3000)
 
 
 # ----------------------------------------------------------------------------------------------
